@@ -87,7 +87,9 @@ static char *alloc_stack()
 {
     auto &pool = stack_pool();
     char *m;
-    if (!pool.empty())
+    // Under the race detector a recycled stack would carry the shadow state of the fiber that used it before
+    // (no happens-before edge links the two), so stacks are mapped fresh there: mmap resets the shadow.
+    if (!pool.empty() && !__tsan_create_fiber)
     {
         m = pool.back();
         pool.pop_back();
@@ -105,7 +107,7 @@ static char *alloc_stack()
 static void free_stack(char *m)
 {
     if (!m) return;
-    if (stack_pool().size() < 64) stack_pool().push_back(m);
+    if (stack_pool().size() < 64 && !__tsan_create_fiber) stack_pool().push_back(m);
     else munmap(m, kStackSize + kGuard);
 }
 
